@@ -100,6 +100,25 @@ def run_case(case):
                         g = h5.getrec(f[idx])
                         paths += 1
                         v.check(h5.same_obs(base[idx % n], g) is None, "integer indexing (also negative) returns that event", index=idx, slice_range=sr, field=h5.same_obs(base[idx % n], g), **cfg)
+                    # event objects fetched first and read afterwards / two iterations interleaved: each keeps showing its own event
+                    order = [int(x) for x in rng.permutation(n)[:min(n, 6)]]
+                    held = [f[i] for i in order]
+                    for i, e in zip(order, held):
+                        paths += 1
+                        v.check(h5.same_obs(base[i], h5.getrec(e)) is None, "event objects fetched earlier keep showing their own event after others were fetched", index=i,
+                                fetched_order=order, slice_range=sr, field=h5.same_obs(base[i], h5.getrec(e)), **cfg)
+                    k_ = max(1, n // 2)
+                    for j, (e1, e2) in enumerate(zip(f[0:k_], f[n - k_:n])):
+                        paths += 1
+                        r2, r1 = h5.getrec(e2), h5.getrec(e1)
+                        v.check(h5.same_obs(base[j], r1) is None and h5.same_obs(base[n - k_ + j], r2) is None, "two slices iterated in step yield their own events", position=j,
+                                slice_range=sr, field=h5.same_obs(base[j], r1) or h5.same_obs(base[n - k_ + j], r2), **cfg)
+                    for j, e in enumerate(f):
+                        other = f[(j * 2 + 1) % n]
+                        r_o, r_e = h5.getrec(other), h5.getrec(e)
+                        paths += 1
+                        v.check(h5.same_obs(base[j], r_e) is None and h5.same_obs(base[(j * 2 + 1) % n], r_o) is None, "indexing inside an iteration disturbs neither", position=j,
+                                slice_range=sr, field=h5.same_obs(base[j], r_e) or h5.same_obs(base[(j * 2 + 1) % n], r_o), **cfg)
                     for _ in range(8):
                         a_ = int(rng.integers(0, n))
                         b_ = int(rng.integers(a_ + 1, n + 1))
